@@ -389,6 +389,7 @@ def _evaluate_table(cx, which, prepared=None):
             lld = None
             if x and not (exprs_mod.ops_in(spec['formulas']['logP'], spec['shared']) & NONDIFF):
                 lld = bg2.calculate_likelihood_and_derivatives(x, scaled=False, hessian=False, bhhh=False).function
+                _judge_scaled(cx, bg2, x, n_ind, n_rows, f'table {which}', wit, lls=lls)
         except BaseException as e:  # noqa
             cx.viol(f'calculate_likelihood-raises-{type(e).__name__}',
                     f'table {which}: BIOGEME/calculate_likelihood raised {type(e).__name__}: {e}', **wit)
@@ -556,14 +557,15 @@ def _run_history(cx, case):
                 sim = bg.simulate({n: vals[n] for n in free})
             elif op == 'loglike':
                 ll = bg.calculate_likelihood([vals[n] for n in free], scaled=False)
-            elif op == 'estimate':
-                last_est = bg.estimate().get_beta_values()
-            elif op == 'estimate_bootstrap':
-                last_est = bg.estimate(run_bootstrap=True).get_beta_values()
-            elif op == 'quick_estimate':
-                last_est = bg.quick_estimate().get_beta_values()
+            elif op == 'scaled':
+                ll = _judge_scaled(cx, bg, [vals[n] for n in free], len(groups), len(tab[spec['idcol']]),
+                                   f'after {done}, at {vals}', wit())
+            elif op in ('estimate', 'estimate_bootstrap', 'quick_estimate'):
+                results = (bg.quick_estimate() if op == 'quick_estimate' else bg.estimate(run_bootstrap=(op == 'estimate_bootstrap')))
+                last_est = results.get_beta_values()
+                _judge_results_sizes(cx, results, len(groups), len(tab[spec['idcol']]), f'after {done + [op]}', wit())
         except BaseException as e:  # noqa
-            if op in ('simulate', 'loglike'):
+            if op in ('simulate', 'loglike', 'scaled'):
                 cx.viol(f'history-{op}-raises-{type(e).__name__}', f'after {done}: {op} raised {type(e).__name__}: {e}', **wit())
             else:
                 rec.c(f'history_{op}_raised_{type(e).__name__}')
@@ -609,7 +611,7 @@ def _run_history(cx, case):
                 cx.viol(KNOWN_BOOTSTRAP if known else f'history-engine-holds-another-map-than-the-database-when-{op}-evaluates',
                         f'after {done}: during {op} the likelihood was evaluated {len(stale)} time(s) with the map handed over '
                         f'during {stale[0]["map_phase"]!r} inside the engine, which is not Database.individualMap', **wit())
-            if op == 'loglike':
+            if op in ('loglike', 'scaled'):
                 j = c09_ref.reference(spec, tab, spec['formulas']['logP'], vals)
                 if j['ok']:
                     rec.ev()
@@ -631,6 +633,56 @@ def _run_history(cx, case):
         rec.c('history_cases_completed')
     rec.sample({'idcol': spec['idcol'], 'table': tab, 'formula': spec['formulas']['logP'], 'operations': spec['ops'],
                 'bootstrap_samples': spec['bootstrap_samples'], 'operations_completed': done})
+
+
+def _judge_scaled(cx, bg, x, n_ind, n_rows, where, wit, lls=None):
+    """both scaled entry points against the unscaled results divided by the number of individuals (reference groupby):
+    function, gradient, Hessian, BHHH of calculate_likelihood_and_derivatives(scaled=True), and agreement with
+    calculate_likelihood(scaled=True). Raises whatever the code under test raises."""
+    rec = cx.rec
+    fu = bg.calculate_likelihood_and_derivatives(x, scaled=False, hessian=True, bhhh=True)
+    fs = bg.calculate_likelihood_and_derivatives(x, scaled=True, hessian=True, bhhh=True)
+    if lls is None:
+        lls = bg.calculate_likelihood(x, scaled=True)
+    rec.c('scaled_derivative_entry_point_judged')
+    for nm in ('function', 'gradient', 'hessian', 'bhhh'):
+        u = np.asarray(getattr(fu, nm), dtype=float)
+        v = np.asarray(getattr(fs, nm), dtype=float)
+        if u.shape != v.shape or not np.all(np.isfinite(u)):
+            rec.c('scaled_' + nm + '_not_comparable')
+            continue
+        rec.ev()
+        mag = float(np.max(np.abs(u))) if u.size else 0.0
+        if not close(v * n_ind, u, 1e-9, 1e-12 * mag + 1e-13):
+            with np.errstate(all='ignore'):
+                ratio = float(np.nanmedian((u / v)[np.abs(v) > 0])) if np.any(np.abs(v) > 0) else None
+            cx.viol(f'scaled-{nm}-of-derivative-entry-point-not-unscaled-over-number-of-individuals',
+                    f'{where}: calculate_likelihood_and_derivatives(scaled=True).{nm} = {v.tolist()!r:.300}, unscaled = '
+                    f'{u.tolist()!r:.300}: ratio {ratio!r} with {n_ind} individuals and {n_rows} rows', **wit)
+    rec.ev()
+    fsf = float(np.asarray(fs.function))
+    if not close(fsf, lls, 1e-10, 1e-13):
+        cx.viol('scaled-entry-points-disagree',
+                f'{where}: calculate_likelihood(scaled=True)={lls!r}, calculate_likelihood_and_derivatives(scaled=True).function='
+                f'{fsf!r} ({n_ind} individuals, {n_rows} rows)', **wit)
+    return float(np.asarray(fu.function))
+
+
+def _judge_results_sizes(cx, results, n_ind, n_rows, where, wit):
+    rec = cx.rec
+    try:
+        ss, no = results.data.sampleSize, results.data.numberOfObservations
+    except AttributeError:
+        rec.c('results_sizes_not_available')
+        return
+    rec.ev()
+    rec.c('results_sample_size_judged')
+    if ss != n_ind:
+        cx.viol('results-sample-size-not-number-of-individuals', f'{where}: results.data.sampleSize={ss} for {n_ind} individuals / '
+                                                                   f'{n_rows} rows', **wit)
+    if no != n_rows:
+        cx.viol('results-number-of-observations-not-number-of-rows', f'{where}: results.data.numberOfObservations={no} for {n_rows} rows',
+                **wit)
 
 
 def _contiguous(values):
@@ -875,7 +927,8 @@ def finalize(cov, tier):
         'rows_removed_after_panel_api', 'rows_removed_after_panel_direct',
         'history_simulate_judged', 'history_simulate_after_bootstrap_judged', 'history_loglike_judged',
         'history_engine_map_compared_simulateSeveralFormulas', 'history_engine_map_compared_calculateLikelihood',
-        'history_op_estimate', 'history_op_estimate_bootstrap', 'history_op_quick_estimate',
+        'history_op_estimate', 'history_op_estimate_bootstrap', 'history_op_quick_estimate', 'history_op_scaled',
+        'scaled_derivative_entry_point_judged', 'results_sample_size_judged',
         'redeclarations_accepted', 'redeclare_cases_judged', 'redeclare_cases_judged_with_change_of_column',
         'redeclare_cases_judged_montecarlo', 'redeclared_vs_fresh_compared', 'redeclare_between_evaluate',
         'redeclare_between_biogeme', 'redeclare_between_remove', 'redeclare_between_add_column', 'redeclare_between_scale_column',
